@@ -221,9 +221,9 @@ class ExportSim(Sim):
             return
         v = op['version']
         W = self.W
-        lexs = []
-        for sp in specs:
-            lexs.extend(wn.lexicons(lexicon=sp))
+        # Lexicon objects by enumeration (a specifier cannot express every id:version)
+        allx = {lx.specifier(): lx for lx in wn.lexicons()}
+        lexs = [allx[sp] for sp in specs if sp in allx]
         if sorted(lx.specifier() for lx in lexs) != sorted(specs):
             self.probe('selection-differs(C08)')
             return
@@ -284,6 +284,8 @@ class ExportSim(Sim):
         # (b) re-import on an empty replica node
         prim = {}
         for sp in specs:
+            if ' ' in sp:
+                continue       # not selectable by specifier: only part (a) applies
             w = wn.Wordnet(lexicon=sp, expand='')
             prim[sp] = observe.image(w)
         cur = W.cur
@@ -298,6 +300,8 @@ class ExportSim(Sim):
                                      'database raised %s' % type(exc).__name__,
                                      dict(ctx, exc=repr(exc)))
             for sp in specs:
+                if sp not in prim:
+                    continue
                 w = wn.Wordnet(lexicon=sp, expand='')
                 rep = observe.image(w)
                 a, b = self.api_projection(prim[sp], v), self.api_projection(rep, v)
@@ -406,6 +410,8 @@ def build(seed):
     prof['max_entries'] = min(prof['max_entries'], 4)
     prof['max_synsets'] = min(prof['max_synsets'], 4)
     prof['n_ext'] = rng.choice([0, 1, 2])
+    prof['p_space_version'] = rng.choice([0.0, 0.0, 0.5])
+    prof['p_second_version'] = rng.choice([0.4, 0.9])
     u = U.generate(rng, prof)
     prng = subseed(seed, 'plan')
     swarm = {'routes': prng.random() < 0.3, 'batch': prng.random() < 0.3, 'short_reads': False}
